@@ -160,7 +160,7 @@ int main(int argc, char **argv) {
   R.property = "C18"; R.part = "index"; R.tier = a.tier;
   std::vector<std::string> cases;
   // (1) all subsets of {0..n-1} as sorted vectors
-  int nset = thorough ? 14 : 10;
+  int nset = thorough ? 16 : 10;
   for (long mask = 0; mask < (1L << nset); mask++) {
     std::vector<long> v;
     for (int k = 0; k < nset; k++) if (mask >> k & 1) v.push_back(k);
@@ -171,6 +171,15 @@ int main(int argc, char **argv) {
     std::vector<long> v;
     for (int k = 0; k < 10; k++) if (mask >> k & 1) v.push_back(k - 3);
     cases.push_back(vcase(v));
+  }
+  // all subsets of a set with multi-digit ids (runs across 9|10, 99|100, 999|1000)
+  if (thorough) {
+    const long ids[14] = {7, 8, 9, 10, 11, 12, 98, 99, 100, 101, 102, 999, 1000, 1001};
+    for (long mask = 1; mask < (1L << 14); mask++) {
+      std::vector<long> v;
+      for (int k = 0; k < 14; k++) if (mask >> k & 1) v.push_back(ids[k]);
+      cases.push_back(vcase(v));
+    }
   }
   // (2) all unsorted vectors with duplicates
   {
@@ -185,7 +194,7 @@ int main(int argc, char **argv) {
   }
   // (3) index strings: all token lists over {i, i:j}
   {
-    int w = thorough ? 6 : 5;
+    int w = thorough ? 7 : 5;
     std::vector<std::string> T;
     for (int i = 0; i < w; i++) T.push_back(std::to_string(i));
     for (int i = 0; i < w; i++) for (int j = 0; j < w; j++) T.push_back(std::to_string(i) + ":" + std::to_string(j));
@@ -198,10 +207,18 @@ int main(int argc, char **argv) {
     for (size_t i = 0; i < T.size(); i++) for (size_t j = 0; j < T.size(); j++) for (size_t k = 0; k < T.size(); k += 3) add(T[i] + ",\n" + T[j] + "\t " + T[k]);
     // with a window that has two-digit and negative numbers
     for (auto &x : std::vector<std::string>{"9:11", "10", "-2:1", "-1", "99:101", "12 10 11"}) for (auto &y : T) { add(x + " " + y); add(y + "," + x); }
+    if (thorough) {
+      // multi-digit tokens: all pairs over a window that crosses 9|10 and 99|100
+      std::vector<std::string> M;
+      const long ids[8] = {8, 9, 10, 11, 98, 99, 100, 101};
+      for (long i : ids) M.push_back(std::to_string(i));
+      for (long i : ids) for (long j : ids) M.push_back(std::to_string(i) + ":" + std::to_string(j));
+      for (auto &x : M) for (auto &y : M) { add(x + " " + y); add(x + ",\t" + y); }
+    }
   }
-  R.rule = "IndexParser: vector->string->vector for all subsets of {0.." + std::to_string(nset - 1) + "}, all non-empty subsets of {-3..6}, all unsorted/duplicated vectors of length <= " +
-           std::string(thorough ? "5 over {0..6}" : "4 over {0..5}") + "; string->vector->string->vector for all lists of <= 3 tokens over {i, i:j | i,j < " + std::string(thorough ? "6" : "5") +
-           "} joined by every separator of {' ', ',', '\\n', '\\t', ', ', '  '} (two tokens) or ' ' / mixed separators (three tokens). Oracle: an independent reader of the "
+  R.rule = "IndexParser: vector->string->vector for all subsets of {0.." + std::to_string(nset - 1) + "}, all non-empty subsets of {-3..6}" + std::string(thorough ? " and of the multi-digit id set {7..12,98..102,999..1001}" : "") + ", all unsorted/duplicated vectors of length <= " +
+           std::string(thorough ? "5 over {0..6}" : "4 over {0..5}") + "; string->vector->string->vector for all lists of <= 3 tokens over {i, i:j | i,j < " + std::string(thorough ? "7" : "5") +
+           "} joined by every separator of {' ', ',', '\\n', '\\t', ', ', '  '} (two tokens) or ' ' / mixed separators (three tokens)" + std::string(thorough ? "; all pairs of multi-digit tokens over {8..11,98..101}" : "") + ". Oracle: an independent reader of the "
            "string grammar (the produced string must DENOTE the set, checked without the code's own parser) and set semantics (sorted, duplicate free). "
            "distinct = distinct produced strings / result vectors";
   std::vector<long long> mineidx;
